@@ -280,6 +280,16 @@ def execute(sc, ctx):
             v1 = np.concatenate(first_ok_reqs, axis=-1)
             v2 = np.concatenate(log2.requests, axis=-1)
             if v1.shape != v2.shape or not np.array_equal(v1, v2):
+                # common-prefix scenarios use exact (dyadic) times, where the same-seed antenna must deliver the
+                # same stream however it is requested; a gross difference means samples were lost, duplicated or
+                # re-ordered at request boundaries inside the source, which the recorded bytes then inherit
+                scale = max(float(np.max(np.abs(v1))), 1e-300)
+                if ant["dyadic"] and v1.shape == v2.shape and float(np.max(np.abs(v1 - v2))) > 1e-6 * scale:
+                    bad = np.argwhere(np.abs(v1 - v2) > 1e-6 * scale)[0]
+                    ctx.violation("partition", "C02/partition/voltage_stream_depends_on_request_sizes/%s" % ant["kind"],
+                                  "num_subblocks %d->%d: same-seed %s delivers different voltages (antenna %d pol %d sample %d)" % (
+                                      be["num_subblocks"], alt["num_subblocks"], ant["kind"], bad[0], bad[1], bad[2]))
+                    return
                 ctx.hit("partition_twin_skipped_antenna_not_chunk_invariant")
                 continue
             ctx.hit("partition_twin_compared")
